@@ -29,6 +29,7 @@ THEOREMS = [
     "Nix.C03.names_unique_reachable",
     "Nix.C03.ids_unique_reachable",
     "Nix.C03.id_fresh",
+    "Nix.C03.id_stable_partial",
     "Nix.C03.order_after_delete",
     "Nix.C03.link_append_last",
     "Nix.C03.link_unlink_keeps_rest",
@@ -39,21 +40,37 @@ THEOREMS = [
 ASSUMPTIONS = [
     "HDF5 groups with creation-order tracking enumerate links in creation order, also after deletions and reopen "
     "(modelled by list order; exercised by the correspondence, including names that sort against creation order)",
-    "uuid4 ids are drawn from an abstract fresh supply",
+    "uuid4 ids are drawn from an abstract fresh supply (model ids id:0, id:1, ...): the reachable-state theorems "
+    "quantify over histories in which no call names its new entity with an id still to be drawn (Op.Fresh / "
+    "FreshHist in Lemmas/StoreWF.lean); names equal to ids already in the file are allowed",
     "uuid.UUID(str) acceptance is modelled for plain / hyphenated / braced / urn:uuid: forms (the generators' domain)",
 ]
 TRUSTED_EXTRA = ["harness/lib/storeimpl.py + storegen.py (path addressing by iteration, HDF5-level dump with h5py)"]
 READY = True
 MANIFEST = {
     "level_text": "Kernel-checked theorems over a Lean model of the HDF5 object graph under a NIX file and of nixio's "
-                  "container API (container.py, h5group.py, entity/block/section/source create paths): positional "
-                  "indexing (incl. negative), lookup by name, lookup by id and membership all denote the "
-                  "creation-ordered link list of the container, for every graph; duplicates are refused. The model is "
-                  "hand-written and tied to the code by differential execution of random create/link/delete histories "
-                  "(every access path queried after every step, HDF5-level graph dumps compared).",
+                  "container API (container.py, h5group.py, entity/block/section/source/tag/feature create paths). "
+                  "An invariant WF (unique keys, link targets exist, link names unique per group, ids handed out by the "
+                  "supply and pairwise distinct, container typing: entries of owning containers are named by the "
+                  "entity's name, entries of link lists by its id) is proved for the empty file and preserved by every "
+                  "API operation (one lemma per function, unbounded induction over histories: reachable_wf). On every "
+                  "reachable graph: positional indexing (incl. negative), lookup by name, lookup by id, membership by "
+                  "name / id / entity all denote the same entry of the creation-ordered link list "
+                  "(views_agree_reachable); names and ids are unique; duplicates are refused by every create function; "
+                  "a legal block name is accepted, appended last, gets a fresh id, and delete-by-name restores the list; "
+                  "deleting from a plain container removes exactly the addressed entry and keeps the order of the rest; "
+                  "link-list append puts the entry last (re-append moves it to the end), unlink keeps the rest. The "
+                  "model is hand-written and tied to the code by differential execution of random create/link/delete "
+                  "histories (every access path queried after every step, HDF5-level graph dumps compared).",
     "level_note": "Trusted: Lean kernel; standard axioms; the correspondence harness; h5py/HDF5 link semantics "
-                  "(creation-order iteration, hard links) are modelled, not verified. Open finding: an entity *named* "
-                  "with the id of a sibling is shadowed by that sibling in by-name lookup (ids are tried first).",
+                  "(creation-order iteration, hard links) are modelled, not verified; uuid4 freshness is an explicit "
+                  "hypothesis (Op.Fresh). Partial: legal_name_accepted is packaged as one statement for create_block "
+                  "only (for the other create functions: invariant preservation + the view theorems on the resulting "
+                  "state; full statement kept as def LegalNameAcceptedEverywhere); id stability is proved for "
+                  "create_block / create_section / del / append / attribute setters / reopen (def IdStable is the full "
+                  "statement); order_after_delete covers plain containers and link lists, not the subtree deletion of "
+                  "sections / sources. Open finding: an entity *named* with the id of a sibling is shadowed by that "
+                  "sibling in by-name lookup (ids are tried first) — the one hypothesis left in views_agree_reachable.",
 }
 
 NAMES = storegen.NAMES_PLAIN + storegen.NAMES_UUIDISH
